@@ -135,4 +135,44 @@ def TraceOk [Chunk β] (h : Hist β) : List (Op β) → List (Out β) → Prop
   | op :: ops, o :: os => StepOk h op o ∧ TraceOk (h.step op o) ops os
   | _, _ => True
 
+section
+variable [Chunk β]
+
+/-! ### trace vocabulary used by the theorem statements -/
+
+/-- the observable history after running `ops` on a fresh `Payload::create(eof)` pair -/
+def hist (eof : Bool) (ops : List (Op β)) : Hist β :=
+  (Hist.init eof).runWith ops (Chan.outs (Chan.create eof) ops)
+
+/-- the channel state after `ops` -/
+def state (eof : Bool) (ops : List (Op β)) : Chan β := Chan.exec (Chan.create eof) ops
+
+/-- what the next operation `op` returns / wakes after `ops` -/
+def next (eof : Bool) (ops : List (Op β)) (op : Op β) : Out β := (Chan.step (state eof ops) op).2
+
+/-- the chunks a trace handed to the reader -/
+def yieldedOf : List (Out β) → List β
+  | [] => []
+  | ⟨.poll (.data b), _⟩ :: os => b :: yieldedOf os
+  | _ :: os => yieldedOf os
+
+/-- the chunks accepted by `feed_data`, read off the operation sequence alone: those issued while
+both handles still exist -/
+def fedChunks : Bool → Bool → List (Op β) → List β
+  | _, _, [] => []
+  | s, r, .feedData b :: ops => if s && r then b :: fedChunks s r ops else fedChunks s r ops
+  | _, r, .dropSender :: ops => fedChunks false r ops
+  | s, _, .dropReader :: ops => fedChunks s false ops
+  | s, r, _ :: ops => fedChunks s r ops
+
+def isUnread : Op β → Bool
+  | .unreadData _ => true
+  | _ => false
+
+def isFeedEof : Op β → Bool
+  | .feedEof => true
+  | _ => false
+
+end
+
 end ActixModel.Payload
